@@ -162,7 +162,7 @@ def run(case):
             return "instance %d: %d responses interleaved, %d alone" % (i, len(joint[i]), len(solo))
     return None
 
-case = ({'adapter': True, 'compress': False, 'batch': False}, [{'seconds': 30}, {'minutes': 5}, {'minutes': 5}], [(0, ('begin', ('base', 'alt'), ('s',), ('alt', 'c', 11.0))), (0, ('end',)), (0, ('begin', ('base', 'alt'), ('s',), ('base', 'c', 0.25))), (1, ('begin', ('alt',), ('s', 'f', 'g'), ('base', 'c', 0.25))), (1, ('steps', 1, None)), (1, ('step', None)), (1, ('stop',)), (1, ('step', None)), (1, ('step', ('base', 'g', 7.0))), (1, ('step', ('alt', 'g', 4.0))), (2, ('begin', ('alt',), ('s', 'c'), ('base', 'c', 0.25))), (2, ('step', None)), (None, ('advance', 400000)), (2, ('results', False)), (2, ('steps', 2, ('alt', 'c', 11.0))), (2, ('steps', 1, ('base', 'g', 7.0))), (2, ('step', ('base', 'c', 5.0))), (0, ('step', ('base', 'g', 7.0))), (0, ('results', False)), (None, ('advance', 400000)), (0, ('results', False)), (2, ('stream', ('base', 'g', 7.0))), (2, ('steps', 1, ('base', 'c', 0.25))), (2, ('results', False)), (None, ('advance', 400000)), (0, ('results', False)), (0, ('step', None)), (1, ('results', False)), (1, ('step', None)), (2, ('results', False)), (2, ('step', None))])
+case = ({'adapter': False, 'compress': False, 'batch': False}, [{'hours': 1}, {'seconds': 2}, {'seconds': 2}], [(1, ('begin', ('base', 'alt'), ('s',), ('alt', 'c', 11.0))), (0, ('begin', ('base', 'alt'), ('s', 'c'), ('base', 'c', 5.0))), (0, ('end',)), (0, ('begin', ('base', 'alt'), ('s', 'c'), None)), (1, ('end',)), (2, ('begin', ('base', 'alt'), ('s', 'c'), ('base', 'g', 7.0))), (2, ('end',)), (2, ('begin', ('base', 'alt'), ('s', 'c'), ('base', 'g', 7.0))), (2, ('steps', 3, ('base', 'c', 5.0))), (1, ('begin', ('base', 'alt'), ('s',), ('alt', 'c', 11.0))), (1, ('step', ('base', 'g', 7.0))), (1, ('results', False)), (2, ('step', ('base', 'g', 7.0))), (2, ('end',)), (0, ('steps', 2, None)), (2, ('begin', ('base', 'alt'), ('s', 'c'), None)), (None, ('advance', 3)), (0, ('results', False)), (0, ('step', ('base', 'g', 7.0))), (2, ('results', True)), (2, ('keep',)), (2, ('stream', None)), (2, ('results', False)), (0, ('stop',)), (0, ('keep',))])
 bad = run(case)
 print("configuration:", case[0], "timeouts:", case[1])
 for p, s in enumerate(case[2]):
